@@ -1202,7 +1202,7 @@ func genC19Uni(o *hx.Out, r *hx.Rng, tier string) error {
 
 func genC19(o *hx.Out, r *hx.Rng, tier string, replay string) error {
 	log.SetOutput(io.Discard)
-	o.Rule = "three streams: (words) texts over {a b space tab quote backslash | v s : é < k}, exhaustive up to a length bound over 5 symbols, through SplitWords / addToQuery / parseQueryString; (fmt) generated benchmark files (label set/delete, blank, hostile lines, CRLF) through the legacy Reader (with and without AddLabels), the Printer and the Reader again; (history) 1-6 uploads of 1-3 files through storage.Client into an in-process storage/app server on in-memory sqlite, then 20-60 generated queries (equality/range, present/absent keys, several terms per key, contradictory, redundant, quoted values, malformed words, key upload) each through db.DB.Query, storage.Client.Query, db.DB.ListUploads and storage.Client.ListUploads with a limit; (words, non-ASCII) texts and front-end values with à Å 全 U+00A0 U+2003 U+0085 (UTF-8 bytes 0x85 / 0xA0), exhaustive to length 3 over {a space à Å U+00A0}; (many) 11-14 tiny uploads on one day, listings with limits 1/3/5 and others, with and without queries most uploads match; (transitions) files built from label-set transitions (superset, subset, same size other keys, disjoint, value change) read back per upload in one HTTP response, and through Reader/Printer/Reader; (non-ASCII values) stored label values with those symbols searched by the bare word the front end builds. non-trivial = at least one word / result / stored result"
+	o.Rule = "three streams: (words) texts over {a b space tab quote backslash | v s : é < k}, exhaustive up to a length bound over 5 symbols, through SplitWords / addToQuery / parseQueryString; (fmt) generated benchmark files (label set/delete, blank, hostile lines, CRLF) through the legacy Reader (with and without AddLabels), the Printer and the Reader again; (history) 1-6 uploads of 1-3 files through storage.Client into an in-process storage/app server on in-memory sqlite, then 20-60 generated queries (equality/range, present/absent keys, several terms per key, contradictory, redundant, quoted values, malformed words, key upload) each through db.DB.Query, storage.Client.Query, db.DB.ListUploads and storage.Client.ListUploads with a limit; (words, non-ASCII) texts and front-end values with à Å 全 U+00A0 U+2003 U+0085 (UTF-8 bytes 0x85 / 0xA0), exhaustive to length 3 over {a space à Å U+00A0}; (many) 11-14 tiny uploads on one day, listings with limits 1/3/5 and others, with and without queries most uploads match; (transitions) files built from label-set transitions (superset, subset, same size other keys, disjoint, value change) read back per upload in one HTTP response, and through Reader/Printer/Reader; (non-ASCII values) stored label values with those symbols searched by the bare word the front end builds; (flush boundary) uploads of distinct records whose LAST record is the one the database layer's 990-argument (248-label) flush falls into, or falls in front of, or a neighbour of it (first/second/third flush; 4-9 labels per record: with/without user, file name, file labels, gomaxprocs and sub-name labels; one or two files; with the plain six labels that is 42 records; 42, 41, 43 and 83 six-label records are always generated), and uploads whose last record alone has more than 247 (or ~500) labels; every label of that final record is searched as key:value alone, with name:, and with upload:ID through Query and ListUploads. non-trivial = at least one word / result / stored result"
 	genC19Words(o, r.Split(), tier)
 	if err := genC19Fmt(o, r.Split(), tier); err != nil {
 		return err
@@ -1219,5 +1219,9 @@ func genC19(o *hx.Out, r *hx.Rng, tier string, replay string) error {
 	if err := genC19Trans(o, r.Split(), tier); err != nil {
 		return err
 	}
-	return genC19Uni(o, r.Split(), tier)
+	if err := genC19Uni(o, r.Split(), tier); err != nil {
+		return err
+	}
+	// last: a new stream takes its generator from a new split, so the earlier streams keep their inputs
+	return genC19Boundary(o, r.Split(), tier)
 }
